@@ -333,6 +333,10 @@ int vmd_server_run(const VmdServerConfig *cfg) {
 
     setup_signals();
 
+    /* Build the lazily initialised CRC-32 table now, before any client thread exists
+     * (crc32_init() in nvm_format.c is not synchronised). */
+    (void)nvm_crc32((const uint8_t *)"", 0);
+
     /* Create socket */
     int server_fd = socket(AF_UNIX, SOCK_STREAM, 0);
     if (server_fd < 0) {
